@@ -113,7 +113,7 @@ PROPS = {
         vfiles=["Props/C02"],
         technique="Coq proof by induction on the frame index with the invariant 'the builder holds the first k frames of the fragmentation' (no bound below the 12-bit id limit), composed with the CAN/USART round-trip theorems for fragment-shaped frames; correspondence on boundary-size packets through all three paths",
         level_text="Theorems C02_direct (for every packet of 0..=28672 bytes: every state before the last frame reports frames left > 0 and MissingFrames, the last frame gives frames left = 0 "
-                   "and build = the original packet), C02_via_can and C02_via_usart (encoding and decoding every frame of the fragmentation returns the same frame list).",
+                   "and build = the original packet), C02_via_can and C02_via_usart (encoding and decoding every frame of the fragmentation returns the same frame list). C02_checker_accepts_model: the extracted checker provably accepts the model's observations.",
         level_note=NOTE_COMMON,
         streams=[dict(REA, view="view_C02", ok="ok_C02")],
         rule="stream REA: " + RULE_PKT + "; each packet goes through to_frames and the direct / CAN-codec / USART-codec paths into a fresh PacketBuilder, frames_left observed after every frame, build probed before the last frame",
